@@ -125,6 +125,8 @@ type PipelineJob struct {
 	sched      *taskctl.Scheduler
 	taskRunner runner.Runner
 	startTimer *time.Timer
+	// cancelRequested is set when a cancel of the running job was requested via CancelJob
+	cancelRequested bool
 }
 
 func (j *PipelineJob) isRunning() bool {
@@ -500,8 +502,10 @@ func (r *PipelineRunner) JobCompleted(id uuid.UUID, err error) {
 	job.End = &now
 	job.LastError = err
 
-	// Set canceled flag on the job if a task was canceled through the context
-	if errors.Is(err, context.Canceled) {
+	// Set canceled flag on the job if a task was canceled through the context, or if a cancel of the job was
+	// requested while it was running: the tasks were told to stop, so the job is not reported as a regular
+	// success or failure, whatever the tasks made of it (e.g. exit regularly on the interrupt)
+	if errors.Is(err, context.Canceled) || job.cancelRequested {
 		job.Canceled = true
 	}
 
@@ -937,7 +941,11 @@ func (r *PipelineRunner) CancelJob(id uuid.UUID) error {
 	r.mx.Lock()
 	defer r.mx.Unlock()
 
-	return r.cancelJobInternal(id)
+	err := r.cancelJobInternal(id)
+	if job := r.jobsByID[id]; err == nil && job != nil && job.Start != nil && !job.Completed {
+		job.cancelRequested = true
+	}
+	return err
 }
 
 func (r *PipelineRunner) cancelJobInternal(id uuid.UUID) error {
